@@ -1,30 +1,180 @@
 (* Props/C14.v -- property C14: content streams survive encode and decode.
-   Statements only; proofs live in Proofs/{LexProofs,LitStringProofs,RealProofs}.v.
-   placeholder: rung 1 only (token round trips); the main theorem is being added. *)
+   Statements only; proofs live in Proofs/{LexProofs,LitStringProofs,RealProofs,ObjectRtProofs,
+   ContentProofs}.v.  Model: Model/Writer.v (Content::encode, Writer::write_object) and
+   Model/Parser.v (Content::decode: operation / operand / operator / inline_image / content). *)
 From LV Require Import Base.Bytes Base.Sx Model.Obj Model.Writer Model.Parser Gen.Lex
-  Proofs.LexProofs Proofs.LitStringProofs Proofs.RealProofs.
+  Proofs.LexProofs Proofs.LitStringProofs Proofs.RealProofs Proofs.ObjectRtProofs Proofs.ContentProofs.
 
-(* every byte string written as a name is read back, whatever follows that is not a regular byte *)
-Theorem C14_name_rt_partial :
+(* ---------------------------------------------------------------------------------------------
+   (1) The main theorem.  For every sequence of operations in the domain of the property
+   ([op_dom]: operator non-empty over the parser's alphabet; operands direct objects other than
+   references -- i64 integers, finite reals, any bytes in names / strings / keys, unique
+   dictionary keys, arbitrary nesting -- or an inline image whose dictionary implies its data
+   length) and outside the two known classes ([known_class]: findings C14-keyword-operator and
+   C14-deep-nesting), decoding the encoded bytes returns the same operators with the operands in
+   normal form ([norm_op]: an integral real below 2^63 comes back as the integer of the same value,
+   an integral real from 2^63 on as the same digits followed by ".0", everything else
+   unchanged; an inline image comes back with its Length entry set). *)
+Theorem C14_rt :
+  forall ops, Forall op_dom ops -> Forall (fun op => known_class op = false) ops ->
+    decode_content (encode_content ops) = DecOk (map norm_op ops).
+Proof. exact content_rt_dom. Qed.
+
+(* non-vacuity: seven operations (no operand, numbers incl. integral and huge reals, literal
+   strings with unbalanced parentheses / backslash / CR LF, nested array + dictionary with
+   delimiter bytes in names and an empty key and a nested reference, an inline image whose data
+   contains ") EI") meet the hypotheses, and the decoded value is the expected one *)
+Theorem C14_example :
+  (Forall op_dom ex_ops /\ Forall (fun op => known_class op = false) ex_ops) /\
+  decode_content (encode_content ex_ops) =
+  DecOk [ mkop "q" [];
+          mkop "cm" [OInt 1; OReal (bs "0.5"); OInt (-3); OInt (-7); OReal (bs "100000000000000000000.0"); OInt 0];
+          mkop "Tj" [OStr (bs "a(b\c)d)(") false];
+          mkop "TJ" [OArr [OStr [x00; xff; x28] true; OInt 120; ONull; OBool true;
+                           ODict [(bs "K /#", OName (bs "a b#")); (bs "", OArr [ORef 12 0; OInt 5; OInt 0])]]];
+          mkop "BI" [OStream [(bs "W", OInt 2); (bs "H", OInt 1); (bs "CS", OName (bs "RGB")); (bs "BPC", OInt 8);
+                              (bs "Length", OInt 6)] (bs "ab) EI")];
+          mkop "'" [OStr [x0d; x0a; x5c] false];
+          mkop "f*" [] ].
+Proof. split; [exact ex_ops_dom|exact ex_ops_result]. Qed.
+
+(* (2) The inline-image clause, in the form "an inline image as decode delivers it is encoded to
+   bytes that decode to the same image".  PARTIAL with respect to the second sentence of the
+   property: the hypothesis describes decode's images ([image_dom]) instead of quantifying over
+   every content that decodes; what is missing is the soundness direction of the parser model
+   (every value the model parser returns satisfies obj_wf) and a model of f32 re-printing for reals
+   spelled non-canonically in the source (DESIGN 3, assumption c).  The correspondence run
+   evaluates the full clause (decode, encode, decode) on the implementation for every case. *)
+Theorem C14_inline_image_rt_partial :
+  forall op, image_dom op -> alphabet_op (op_operator op) = true -> known_class op = false ->
+    decode_content (encode_content [op]) = DecOk [norm_op op].
+Proof.
+  intros op Hi Ha Hk. apply (content_rt_dom [op]).
+  - apply Forall_cons; [split; [exact Ha|right; exact Hi]|apply Forall_nil].
+  - apply Forall_cons; [exact Hk|apply Forall_nil].
+Qed.
+
+(* ---------------------------------------------------------------------------------------------
+   (3) Operand level: Writer::write_object followed by the parser's ordered choice
+   (_direct_objects_at with references, the content operand without) is the identity up to
+   norm_obj, for any continuation satisfying the follow condition of the token, at any depth
+   that admits the operand's nesting. *)
+Theorem C14_object_rt :
+  forall o ar rest f depth,
+    obj_wf o -> ref_ok ar o -> follow_ok ar o rest ->
+    length (write_object o ++ rest) <= f -> nest o <= depth ->
+    object_alts_c (direct_objects_at f (pred depth)) (depth_ok depth) ar f (write_object o ++ rest) =
+    POk (norm_obj o) rest.
+Proof. exact object_rt. Qed.
+
+(* the writer's separator rule (need_separator) establishes the follow condition between
+   adjacent elements, including "the integer does not begin a reference" *)
+Theorem C14_separator_rule :
+  forall x rest, obj_wf x -> cont_ok rest -> cont_ok (sp_if (need_separator x) ++ write_object x ++ rest).
+Proof. exact cont_elem. Qed.
+
+Theorem C14_separator_suffices :
+  forall ar o rest, cont_ok rest -> follow_ok ar o rest.
+Proof. exact cont_follow. Qed.
+
+(* the normal form is a fixed point: a second encode/decode cycle changes nothing more *)
+Theorem C14_norm_stable :
+  forall o, obj_wf o -> obj_wf (norm_obj o) /\ norm_obj (norm_obj o) = norm_obj o.
+Proof. exact norm_obj_wf. Qed.
+
+(* what the normal form does to a real (the only kind it changes) *)
+Theorem C14_norm_real_integral :
+  forall neg ds, ds <> [] -> forallb is_dec_digit ds = true ->
+    norm_real (real_text neg ds []) =
+    if (REAL_POINT_DISPLAY_THRESHOLD <=? digits_val ds)%N then OReal (real_text neg ds [x30])
+    else OInt (int_of_text neg ds).
+Proof. exact norm_real_int. Qed.
+
+Theorem C14_norm_real_fraction :
+  forall neg ds fs, ds <> [] -> forallb is_dec_digit ds = true -> fs <> [] ->
+    norm_real (real_text neg ds fs) = OReal (real_text neg ds fs).
+Proof. exact norm_real_frac. Qed.
+
+(* ---------------------------------------------------------------------------------------------
+   (4) Token level, every byte string (the sweeps over the regenerated byte sets live in the proofs) *)
+Theorem C14_name_rt :
   forall n rest, name_follow rest = true -> name (write_name n ++ rest) = POk n rest.
 Proof. exact name_rt. Qed.
 
-(* every byte string written as a literal string is read back (any parenthesis nesting) *)
-Theorem C14_literal_rt_partial :
+Theorem C14_literal_rt :
   forall t rest fuel, length (write_literal t ++ rest) <= fuel ->
     literal_string fuel (write_literal t ++ rest) = POk t rest.
 Proof. exact literal_string_rt. Qed.
 
-Theorem C14_hex_rt_partial :
+Theorem C14_hex_rt :
   forall s rest, hexadecimal_string (write_hex s ++ rest) = POk s rest.
 Proof. exact hex_string_rt. Qed.
 
-Theorem C14_integer_rt_partial :
+Theorem C14_integer_rt :
   forall z rest, in_i64 z = true -> starts_with is_dec_digit rest = false ->
     integer (Z_dec z ++ rest) = POk z rest.
 Proof. exact integer_rt. Qed.
 
-Print Assumptions C14_name_rt_partial.
-Print Assumptions C14_literal_rt_partial.
-Print Assumptions C14_hex_rt_partial.
-Print Assumptions C14_integer_rt_partial.
+Theorem C14_real_rt :
+  forall r rest, real_wf r -> starts_with digit_or_point rest = false ->
+    (exists r', norm_real r = OReal r' /\ real (write_real r ++ rest) = POk r' rest) \/
+    (exists z, norm_real r = OInt z /\ real (write_real r ++ rest) = PErr /\
+               integer (write_real r ++ rest) = POk z rest).
+Proof. exact real_rt. Qed.
+
+(* ---------------------------------------------------------------------------------------------
+   (5) The known classes are real (KnownClass witnesses, replayed on the crate by ./check) *)
+Theorem C14_keyword_operator_refuted :
+  op_dom kw_witness /\ known_class kw_witness = true /\
+  decode_content (encode_content [kw_witness]) = DecOk [mkop "ify" [ONull]].
+Proof. exact kw_witness_refutes. Qed.
+
+Theorem C14_bi_prefix_refuted :
+  op_dom bi_witness /\ known_class bi_witness = true /\
+  decode_content (encode_content [bi_witness]) = DecErr.
+Proof. exact bi_witness_refutes. Qed.
+
+Theorem C14_deep_nesting_refuted :
+  op_dom deep_witness /\ known_class deep_witness = true /\
+  decode_content (encode_content [deep_witness]) = DecOk [].
+Proof. exact deep_witness_refutes. Qed.
+
+Theorem C14_deep_limit_example :
+  decode_content (encode_content [mkop "x" [nested 100]]) = DecOk [mkop "x" [nested 100]].
+Proof. exact deep_limit_ok. Qed.
+
+(* (6) The documented domain restrictions are necessary *)
+Theorem C14_reference_operand_refuted :
+  decode_content (encode_content [mkop "x" [ORef 1 0]]) = DecOk [mkop "R" [OInt 1; OInt 0]; mkop "x" []].
+Proof. exact reference_operand_refuted. Qed.
+
+Theorem C14_nonfinite_real_refuted :
+  decode_content (encode_content [mkop "x" [OReal (bs "NaN")]]) = DecOk [mkop "NaN" []; mkop "x" []].
+Proof. exact nan_operand_refuted. Qed.
+
+Theorem C14_image_space_data_refuted :
+  decode_content (encode_content
+    [mkop "BI" [OStream [(bs "W", OInt 1); (bs "H", OInt 1); (bs "CS", OName (bs "Gray")); (bs "BPC", OInt 8)] [x20]]]) = DecErr.
+Proof. exact image_space_data_refuted. Qed.
+
+Print Assumptions C14_rt.
+Print Assumptions C14_example.
+Print Assumptions C14_inline_image_rt_partial.
+Print Assumptions C14_object_rt.
+Print Assumptions C14_separator_rule.
+Print Assumptions C14_separator_suffices.
+Print Assumptions C14_norm_stable.
+Print Assumptions C14_norm_real_integral.
+Print Assumptions C14_norm_real_fraction.
+Print Assumptions C14_name_rt.
+Print Assumptions C14_literal_rt.
+Print Assumptions C14_hex_rt.
+Print Assumptions C14_integer_rt.
+Print Assumptions C14_real_rt.
+Print Assumptions C14_keyword_operator_refuted.
+Print Assumptions C14_bi_prefix_refuted.
+Print Assumptions C14_deep_nesting_refuted.
+Print Assumptions C14_deep_limit_example.
+Print Assumptions C14_reference_operand_refuted.
+Print Assumptions C14_nonfinite_real_refuted.
+Print Assumptions C14_image_space_data_refuted.
